@@ -150,13 +150,14 @@ theorem take_signing_input (h p sg : Bytes) :
   apply List.take_left'
   simp; omega
 
-/-- **jwt_parse_sound.**  If `Parser.Parse` succeeds on `d` with `(header, claims)` then
-    `d = h.p.sg` (no '.' in `h`, `p`), the header is the decoding of the received `h`, its
-    algorithm is allowed, the key is the finder's answer for that header, the primitive accepted
-    literally `d[0 .. idx2)` = `h ++ "." ++ p` with the decoding of `sg`, and the claims are the
-    claims step applied to the decoding of that same `p`. -/
-theorem jwt_parse_sound (o : Oracle) (cfg : Cfg) (d : Bytes) (hdr : Header) (claims : Wire)
-    (h : (parse cfg d).run o = .ok (hdr, claims)) :
+/-- **jwt_parse_sound, for any claims step `pc`.**  If `Parser.Parse` succeeds on `d` with
+    `(header, c)` then `d = h.p.sg` (no '.' in `h`, `p`), the header is the decoding of the received
+    `h`, its algorithm is allowed, the key is the finder's answer for that header, the primitive
+    accepted literally `d[0 .. idx2)` = `h ++ "." ++ p` with the decoding of `sg`, and `c` is the
+    result of the claims step on the decoding of that same `p` — run after the signature check. -/
+theorem parseWith_sound {γ : Type} (pc : Bytes → PO γ) (o : Oracle) (cfg : Cfg) (d : Bytes)
+    (hdr : Header) (claims : γ)
+    (h : (parseWith pc cfg d).run o = .ok (hdr, claims)) :
     ∃ hs p sg sig payload sk, d = hs ++ dot :: (p ++ dot :: sg) ∧ dot ∉ hs ∧ dot ∉ p ∧
       cfg.configured = true ∧ HeaderOf o hs hdr ∧ cfg.allows hdr.alg = true ∧
       Sig.signingKeyOfHandle (o ⟨"jwt.findKey", [hdr.toWire]⟩) = some (.ok sk) ∧
@@ -164,8 +165,8 @@ theorem jwt_parse_sound (o : Oracle) (cfg : Cfg) (d : Bytes) (hdr : Header) (cla
       d.take (hs.length + 1 + p.length) = hs ++ dot :: p ∧
       Sig.PrimAccepts o sk (d.take (hs.length + 1 + p.length)) sig ∧
       o ⟨"b64url.dec", [.bytes p]⟩ = .bytes payload ∧
-      claims = o ⟨"c01.jwt.parseClaims", [.bytes payload]⟩ ∧ claims.isNone = false := by
-  unfold parse at h
+      (pc payload).run o = .ok claims := by
+  unfold parseWith at h
   cases hc : cfg.configured
   · simp [hc] at h
   · simp only [hc, Bool.not_true, Bool.false_eq_true, if_false] at h
@@ -201,18 +202,48 @@ theorem jwt_parse_sound (o : Oracle) (cfg : Cfg) (d : Bytes) (hdr : Header) (cla
               obtain ⟨payload, hpl, h⟩ := PO.run_bind_eq_ok o _ _ _ h
               rw [stage_ok] at hsig hver hpl
               cases u
-              simp only [PO.run_bind, PO.run_query] at h
+              obtain ⟨c, hcl, h⟩ := PO.run_bind_eq_ok o _ _ _ h
+              simp only [PO.run_pure] at h
+              injection h with h
+              injection h with h3 h4
+              subst h3; subst h4
               have hacc := (Sig.verifyKey_ok_iff o sk _ _).1 hver
-              have hcl : hdr = header ∧ claims = o ⟨"c01.jwt.parseClaims", [.bytes payload]⟩ ∧
-                  claims.isNone = false := by
-                cases hq : o ⟨"c01.jwt.parseClaims", [.bytes payload]⟩ <;> simp [hq] at h <;>
-                  (obtain ⟨rfl, rfl⟩ := h; simp [Wire.isNone])
-              obtain ⟨rfl, hcl2, hcl3⟩ := hcl
               refine ⟨hs, p, sg, sig, payload, sk, ed, n1, n2, rfl, hHO, ha, ?_,
-                (b64Decode_ok o sg sig).1 hsig, ?_, hacc, (b64Decode_ok o p payload).1 hpl, hcl2, hcl3⟩
+                (b64Decode_ok o sg sig).1 hsig, ?_, hacc, (b64Decode_ok o p payload).1 hpl, hcl⟩
               · simpa [findKeyQuery] using hk
               · rw [ed]; exact take_signing_input hs p sg
         · simp [ha] at h
+
+theorem claimsOracle_ok (o : Oracle) (payload : Bytes) (c : Wire) :
+    (claimsOracle payload).run o = .ok c ↔
+      c = o ⟨"c01.jwt.parseClaims", [.bytes payload]⟩ ∧ c.isNone = false := by
+  simp only [claimsOracle, PO.run_bind, PO.run_query]
+  generalize o ⟨"c01.jwt.parseClaims", [.bytes payload]⟩ = q
+  cases q with
+  | none =>
+    constructor
+    · intro h; cases h
+    · intro ⟨h1, h2⟩; subst h1; simp [Wire.isNone] at h2
+  | _ =>
+    constructor
+    · intro h; simp only [PO.run_pure] at h; injection h with h; subst h; exact ⟨rfl, rfl⟩
+    · intro ⟨h1, _⟩; subst h1; rfl
+
+/-- **jwt_parse_sound** with the claims codec as one abstract step -/
+theorem jwt_parse_sound (o : Oracle) (cfg : Cfg) (d : Bytes) (hdr : Header) (claims : Wire)
+    (h : (parse cfg d).run o = .ok (hdr, claims)) :
+    ∃ hs p sg sig payload sk, d = hs ++ dot :: (p ++ dot :: sg) ∧ dot ∉ hs ∧ dot ∉ p ∧
+      cfg.configured = true ∧ HeaderOf o hs hdr ∧ cfg.allows hdr.alg = true ∧
+      Sig.signingKeyOfHandle (o ⟨"jwt.findKey", [hdr.toWire]⟩) = some (.ok sk) ∧
+      o ⟨"b64url.dec", [.bytes sg]⟩ = .bytes sig ∧
+      d.take (hs.length + 1 + p.length) = hs ++ dot :: p ∧
+      Sig.PrimAccepts o sk (d.take (hs.length + 1 + p.length)) sig ∧
+      o ⟨"b64url.dec", [.bytes p]⟩ = .bytes payload ∧
+      claims = o ⟨"c01.jwt.parseClaims", [.bytes payload]⟩ ∧ claims.isNone = false := by
+  obtain ⟨hs, p, sg, sig, payload, sk, a1, a2, a3, a4, a5, a6, a7, a8, a9, a10, a11, a12⟩ :=
+    parseWith_sound claimsOracle o cfg d hdr claims h
+  obtain ⟨c1, c2⟩ := (claimsOracle_ok o payload claims).1 a12
+  exact ⟨hs, p, sg, sig, payload, sk, a1, a2, a3, a4, a5, a6, a7, a8, a9, a10, a11, c1, c2⟩
 
 end Model.JWT
 
